@@ -119,7 +119,10 @@ type Evidence struct {
 	Violations  int                    `json:"violations"`
 }
 
-var contractClasses = map[string]bool{"pre": false, "post": true, "inv-entry": true, "inv-pres": true, "frame": true, "typestate": true, "init": true, "reset": true, "recover": true, "subtype": true, "lemma": true, "frame-in": true, "frame-glob": true, "cap": true, "alloc": true}
+// classes whose violation shows as a panic or a hang of the real function (what the replay harness observes)
+var replayable = map[string]bool{"idx": true, "slice": true, "nil": true, "div": true, "make": true, "typeassert": true, "mapnil": true, "panic": true, "pre": true, "dec": true}
+
+var contractClasses = map[string]bool{"pre": false, "post": true, "inv-entry": true, "inv-pres": true, "frame": true, "typestate": true, "typestate-err": true, "init": true, "reset": true, "recover": true, "subtype": true, "lemma": true, "frame-in": true, "frame-glob": true, "cap": true, "alloc": true}
 
 func checkCmd(args []string) {
 	fs := flag.NewFlagSet("check", flag.ExitOnError)
@@ -257,6 +260,9 @@ func checkCmd(args []string) {
 		var cand []item
 		for _, it := range needReplay {
 			if it.res == nil || len(it.o.Any) > 0 && it.o.Class != "dec" {
+				continue
+			}
+			if !replayable[it.o.Class] {
 				continue
 			}
 			if !isRoot[it.res.Fn] {
